@@ -195,6 +195,15 @@ Definition load_resid (d : dir) (base : name) (ntask rank : Z) : result (A * lis
   bind (mapM get_resid tmp) (fun rs =>
   match mc with MeanC m => Ret (m, rs) | _ => Raise OtherError end)))).
 
+(* ResidualSampleList.load_mean (a classmethod without communicator: every task reads the file):
+       @classmethod
+       def load_mean(cls, file_name_base):
+           return _load_from_disk(f"{file_name_base}.mean.pickle")
+   returns whatever object the pickle holds (no check); a missing file is FileNotFoundError
+   (OtherError).  The translator checks that this f-string is the one of save/load. *)
+Definition load_mean (d : dir) (base : name) : result content :=
+  load_from_disk d (mean_file_name base).
+
 (* all tasks of a load *)
 Definition load_plain_all d base (ntask : Z) : list (result (list A)) :=
   map (load_plain d base ntask) (zrange 0 ntask).
@@ -283,6 +292,10 @@ Definition load_resid_ok (d : dir val) (base : name) (ntask : Z)
            (obs : list (result (val * list (val * bool)))) : bool :=
   list_eqb (res_eqb (fun a b => val_eqb (fst a) (fst b) && list_eqb rn_eqb (snd a) (snd b)))
            (map (load_resid val d base ntask) (zrange 0 ntask)) obs.
+
+(* load_mean on the directory observed after a step *)
+Definition load_mean_ok (d : dir val) (base : name) (obs : result (content val)) : bool :=
+  res_eqb content_eqb (load_mean val d base) obs.
 
 (* ---- IEEE binary64 instance for the bit-exact comparison of StatCalculator / average ---- *)
 From Coq Require Import PrimFloat Uint63.
